@@ -62,10 +62,22 @@ def evaluate(seed):
             if rc1 != 0:
                 fails += 1
         os.remove(os.path.join(d, "zz_seed_demo_test.go"))
-        for attempt in range(4):  # TestRedisUnblock of the repo is flaky (hangs) on the unchanged tree as well
-            rc2, out2 = sh("go test -vet=off -count=1 -timeout 90s .", cwd=d, timeout=150)
-            if rc2 == 0:
-                break  # the repo's suite has flaky tests (TestRedisUnblock hangs, TestRedisBLMoveStress shares a rand.Rand): a deterministic failure fails all four attempts
+        base = set(json.load(open("/root/.vp/BASELINE.json"))["stable_pass"])
+        for attempt in range(4):  # the pinned suite = the 68 tests of BASELINE.json (TestRedisUnblock, which hangs now and then on the unchanged tree, is not one of them)
+            rc2, out2 = sh("go test -json -vet=off -count=1 -timeout 90s .", cwd=d, timeout=150)
+            st = {}
+            for l in out2.splitlines():
+                try:
+                    e = json.loads(l)
+                except Exception:
+                    continue
+                if e.get("Test") and e.get("Action") in ("pass", "fail"):
+                    st[e["Package"] + "::" + e["Test"]] = e["Action"]
+            bad = [b for b in base if st.get(b) != "pass"]
+            if rc2 == 0 or not bad:
+                rc2 = 0
+                break
+            out2 = "baseline tests not passing: " + ", ".join(sorted(bad)[:6])  # the repo's suite has flaky tests (TestRedisUnblock hangs, TestRedisBLMoveStress shares a rand.Rand): a deterministic failure fails all four attempts
         PORTS.release()
         meta["suite_failure_tail"] = "" if rc2 == 0 else out2[-600:]
         # run the checks against the patched copy
